@@ -156,7 +156,10 @@ static void receive_snoop (char *buf, object_t * snooper) {
 
   /* command giver no longer set to snooper */
   copy_and_push_string (buf);
-  apply (APPLY_RECEIVE_SNOOP, snooper, 1, ORIGIN_DRIVER);
+  /* under its own recovery point: this runs in the middle of the snooped user's input and output paths
+   * (get_user_data(), copy_chars(), add_message()); an error in the snooper's receive_snoop() must not
+   * unwind through them (the snooped user lost the input just read) */
+  safe_apply (APPLY_RECEIVE_SNOOP, snooper, 1, ORIGIN_DRIVER);
 }
 
 /**
@@ -682,6 +685,8 @@ static size_t copy_chars (UCHAR* from, UCHAR* to, size_t count, interactive_t* i
                   *to++ = '\0';
                   opt_trace (TT_COMM|2, "TELNET new line sequence received.\n");
                   add_message (ip->ob, "\r\n");
+                  if (user_ob->interactive != ip)
+                    return (size_t) -1;	/* a snooper's receive_snoop() destructed or disconnected the user: ip is gone */
                 }
               ip->state &= ~TS_CR_SEEN; /* lone CR is dropped */
               break;
